@@ -269,13 +269,25 @@ type bZooMutualB struct {
 	*bZooMutualA
 	B string `@Int`
 }
+type bZooRecSlice []bZooRecSlice
+type bZooRecPtr *bZooRecPtr
+type bZooUnion interface{ zooU() }
+type bZooUnionM struct {
+	X string `@Ident`
+}
+
+func (bZooUnionM) zooU() {}
+
+type bZooUnionRoot struct {
+	V bZooUnion `@@`
+}
 type bZooEmpty struct{}
 type bZooNoTags struct{ A, B string }
 type bZooIface interface{ zoo() }
 
 func TestVerif_C19_BuildTotality(t *testing.T) {
 	res := &verifResult{Check: "Build totality", Property: "C19", Exhaustive: true,
-		Bound: "tag soup: all atom sequences of length <= 3 (thorough: <= 4) over 30 atoms {@ @@ Ident Nope \"a\" 'b' 'cd' `e` \"a\":Ident \"a\":Nope ( ) [ ] { } | ? * + ! ~ (?= (?! : = , 1 \"unterminated '}, each as one field and split over two fields, whole-tag and parser:\"...\" forms, field types string and *struct; every single-atom insertion / deletion / replacement of 14 valid tags; 42 field types (maps, channels, functions, interfaces, arrays, anonymous / recursive / left-recursive / self-embedding structs, Parseable with value and pointer receivers, Capture, TextUnmarshaler, lexer.Token) x 8 tags and as root types",
+		Bound: "tag soup: all atom sequences of length <= 3 (thorough: <= 4) over 30 atoms {@ @@ Ident Nope \"a\" 'b' 'cd' `e` \"a\":Ident \"a\":Nope ( ) [ ] { } | ? * + ! ~ (?= (?! : = , 1 \"unterminated '}, each as one field and split over two fields, whole-tag and parser:\"...\" forms, field types string and *struct; every single-atom insertion / deletion / replacement of 14 valid tags; 45 field types (maps, channels, functions, interfaces, arrays, anonymous / recursive / left-recursive / self-embedding structs, self-referential slice and pointer types, Parseable with value and pointer receivers, Capture, TextUnmarshaler, lexer.Token) x 8 tags and as root types; 7 cases of misused options (nil union member, duplicate / empty / non-interface union, unknown token names)",
 		Rule: "distinct (struct type, tag) inputs; non-trivial = the reference recogniser classifies the tag (valid, or one of the property's four rejection classes)"}
 	def := lexer.MustSimple([]lexer.SimpleRule{{Name: "Ident", Pattern: `[a-z]+`}, {Name: "Int", Pattern: `\d+`}, {Name: "Punct", Pattern: `[^\sa-z\d]`}, {Name: "Whitespace", Pattern: `\s+`}})
 	symbols := map[string]bool{"Ident": true, "Int": true, "Punct": true, "Whitespace": true, "EOF": true}
@@ -443,7 +455,7 @@ func TestVerif_C19_BuildTotality(t *testing.T) {
 		reflect.TypeOf(bZooParseVal{}), reflect.TypeOf(&bZooParseVal{}), reflect.TypeOf(bZooParsePtr{}), reflect.TypeOf([]*bZooParsePtr{}), reflect.TypeOf(bZooCapture{}), reflect.TypeOf(&bZooText{}),
 		reflect.TypeOf(struct {
 			C string `@Ident`
-		}{}), reflect.TypeOf(&bZooRec{}), reflect.TypeOf(&bZooLeftRec{}), reflect.TypeOf(&bZooAnonLeftRec{}), reflect.TypeOf(bZooSelfEmbed{}), reflect.TypeOf(&bZooMutualA{}), reflect.TypeOf(bZooEmpty{}), reflect.TypeOf(bZooNoTags{}),
+		}{}), reflect.TypeOf(&bZooRec{}), reflect.TypeOf(&bZooLeftRec{}), reflect.TypeOf(&bZooAnonLeftRec{}), reflect.TypeOf(bZooRecSlice{}), reflect.TypeOf(bZooRecPtr(nil)), reflect.TypeOf([]bZooRecSlice{}), reflect.TypeOf(bZooSelfEmbed{}), reflect.TypeOf(&bZooMutualA{}), reflect.TypeOf(bZooEmpty{}), reflect.TypeOf(bZooNoTags{}),
 		reflect.TypeOf(struct {
 			Self *bZooLeftRec `@@`
 			T    struct {
@@ -483,6 +495,27 @@ func TestVerif_C19_BuildTotality(t *testing.T) {
 			cls = ""
 		}
 		check(fmt.Sprintf("struct{ A %s } with tag %q", c.ft, c.tag), bStruct(c.ft, c.tag), cls, c.valid, true)
+	}
+	// options misused: Build answers with an error (or a parser), never a panic
+	for name, build := range map[string]func() error{
+		"Union with a nil member":            func() error { _, err := Build[bZooUnionRoot](Union[bZooUnion](bZooUnionM{}, nil)); return err },
+		"Union given twice for one type":     func() error { _, err := Build[bZooUnionRoot](Union[bZooUnion](bZooUnionM{}), Union[bZooUnion](bZooUnionM{})); return err },
+		"Union without members":              func() error { _, err := Build[bZooUnionRoot](Union[bZooUnion]()); return err },
+		"Union over a non-interface type":    func() error { _, err := Build[bSub](Union[bSub](bSub{})); return err },
+		"Elide of an unknown token":          func() error { _, err := Build[bSub](Elide("Nope")); return err },
+		"Map on an unknown token":            func() error { _, err := Build[bSub](Upper("Nope")); return err },
+		"CaseInsensitive on an unknown token": func() error { _, err := Build[bSub](CaseInsensitive("Nope")); return err },
+	} {
+		res.Evaluations++
+		current.Store("option case: " + name)
+		func() {
+			defer func() {
+				if r := recover(); r != nil {
+					res.violate("Build panicked on the option case %q: %v", name, r)
+				}
+			}()
+			_ = build()
+		}()
 	}
 	close(done)
 	res.sample(fmt.Sprintf("classes decided by the reference recogniser: %v", classes))
